@@ -699,3 +699,253 @@ func chunksCoverString(c *Ctx, r *Report, rule string) {
 	sort.Strings(bad)
 	r.check(len(bad) == 0, rule, "splitN", c.pos(fn.Pos()), "rest appended or nothing left", "the return at %s is reached after a closed chunk without the rest of the string having been appended and without p >= len(s) being known: for some lengths (an exact multiple of the chunk size) the last chunk is lost, and SMIMEA.String prints a record short of its last 512 octets", strings.Join(uniqStrings(bad), ", "))
 }
+
+// everyEnvelopeDelivered: what the receive loops read they hand on: every way from the ReadMsg call round the loop
+// to the next read passes a send on the envelope channel (an envelope is delivered, or the transfer ends with an
+// error; it is never dropped silently).
+func everyEnvelopeDelivered(c *Ctx, r *Report, rule string) {
+	r.rule(rule, 2, "every way round the receive loop of inAxfr and inIxfr passes a send on the envelope channel")
+	for _, name := range []string{"Transfer.inAxfr", "Transfer.inIxfr"} {
+		fn := c.ssaFunc(name)
+		if fn == nil {
+			r.cerr(rule, name, "function not found")
+			continue
+		}
+		r.fn(name)
+		var read *ssa.Call
+		for _, ci := range callsIn(fn, "(Transfer).ReadMsg") {
+			if cl, ok := ci.(*ssa.Call); ok {
+				read = cl
+			}
+		}
+		if read == nil {
+			r.undecided(rule, name, c.pos(fn.Pos()), "no call of ReadMsg found")
+			continue
+		}
+		sends := map[*ssa.BasicBlock]bool{}
+		allInstrs(fn, func(in ssa.Instruction) {
+			if _, ok := in.(*ssa.Send); ok {
+				sends[in.Block()] = true
+			}
+		})
+		// from the block after the read, avoiding blocks that send: can the read be reached again? Paths are
+		// followed one by one with the values of the boolean flags they fix (`first = !first` then `if !first`).
+		var bad []string
+		var eval func(v ssa.Value, known map[ssa.Value]bool) (bool, bool)
+		eval = func(v ssa.Value, known map[ssa.Value]bool) (bool, bool) {
+			if kb, ok := constBool(v); ok {
+				return kb, true
+			}
+			if val, ok := known[v]; ok {
+				return val, true
+			}
+			if un, ok := v.(*ssa.UnOp); ok && un.Op == token.NOT {
+				if x, ok := eval(un.X, known); ok {
+					return !x, true
+				}
+			}
+			return false, false
+		}
+		steps := 0
+		var explore func(b, prev *ssa.BasicBlock, known map[ssa.Value]bool, depth int)
+		explore = func(b, prev *ssa.BasicBlock, known map[ssa.Value]bool, depth int) {
+			steps++
+			if depth > 40 || steps > 20000 {
+				return
+			}
+			if b == read.Block() {
+				bad = append(bad, c.pos(prev.Instrs[len(prev.Instrs)-1].Pos()))
+				return
+			}
+			if sends[b] {
+				return
+			}
+			k2 := map[ssa.Value]bool{}
+			for k, v := range known {
+				k2[k] = v
+			}
+			// phis take the value of the edge we came in by
+			for _, in := range b.Instrs {
+				phi, ok := in.(*ssa.Phi)
+				if !ok {
+					break
+				}
+				for i, p := range b.Preds {
+					if p == prev {
+						if val, ok := eval(phi.Edges[i], known); ok {
+							k2[phi] = val
+						} else {
+							delete(k2, phi)
+						}
+					}
+				}
+			}
+			if iff, ok := b.Instrs[len(b.Instrs)-1].(*ssa.If); ok {
+				if val, ok := eval(iff.Cond, k2); ok {
+					if val {
+						explore(b.Succs[0], b, k2, depth+1)
+					} else {
+						explore(b.Succs[1], b, k2, depth+1)
+					}
+					return
+				}
+				atom, pol := condAtom(iff.Cond)
+				kt := map[ssa.Value]bool{}
+				kf := map[ssa.Value]bool{}
+				for k, v := range k2 {
+					kt[k], kf[k] = v, v
+				}
+				kt[atom], kf[atom] = pol, !pol
+				kt[iff.Cond], kf[iff.Cond] = true, false
+				explore(b.Succs[0], b, kt, depth+1)
+				explore(b.Succs[1], b, kf, depth+1)
+				return
+			}
+			for _, sx := range b.Succs {
+				explore(sx, b, k2, depth+1)
+			}
+		}
+		// the flags' values at the top of an iteration are unknown: start behind the read with nothing known
+		for _, sx := range read.Block().Succs {
+			explore(sx, read.Block(), map[ssa.Value]bool{}, 0)
+		}
+		sort.Strings(bad)
+		r.check(len(bad) == 0, rule, name, c.pos(fn.Pos()), "a send on every way round", "the loop goes round (from %s) without the envelope just read having been sent on: it is verified and then silently left out, and the transfer is reported complete and error-free with records missing", strings.Join(uniqStrings(bad), ", "))
+	}
+}
+
+// forwardRunCounter recognises the forward form of the escape-parity scan: a counter of the backslashes directly in
+// front of the current octet, carried along the walk. It is right exactly when it is incremented on a backslash and
+// reset to zero on every other octet. found: such a counter exists and a parity test of it decides; problems: ways
+// round the loop on which it is neither incremented under the backslash test nor reset.
+func forwardRunCounter(c *Ctx, fn *ssa.Function) (found bool, problems []string) {
+	allInstrs(fn, func(in ssa.Instruction) {
+		phi, ok := in.(*ssa.Phi)
+		if !ok || found {
+			return
+		}
+		bt, ok := phi.Type().Underlying().(*types.Basic)
+		if !ok || bt.Info()&types.IsInteger == 0 {
+			return
+		}
+		// used in a parity test
+		parity := false
+		for _, ref := range *phi.Referrers() {
+			if b, ok := ref.(*ssa.BinOp); ok && (b.Op == token.REM || b.Op == token.AND) {
+				if k, isK := constIntOf(b.Y); isK && ((b.Op == token.REM && k == 2) || (b.Op == token.AND && k == 1)) {
+					parity = true
+				}
+			}
+		}
+		if !parity {
+			return
+		}
+		// entry edge 0, loop-carried edges examined leaf by leaf
+		zeroEntry := false
+		var carried []ssa.Value
+		for i, e := range phi.Edges {
+			if phi.Block().Dominates(phi.Block().Preds[i]) {
+				carried = append(carried, e)
+			} else if k, isK := constIntOf(e); isK && k == 0 {
+				zeroEntry = true
+			}
+		}
+		if !zeroEntry || len(carried) == 0 {
+			return
+		}
+		incSeen := false
+		var visit func(v ssa.Value, depth int)
+		visit = func(v ssa.Value, depth int) {
+			if depth > 6 {
+				problems = append(problems, "the counter's value round the loop is too involved to follow")
+				return
+			}
+			if k, isK := constIntOf(v); isK {
+				if k != 0 {
+					problems = append(problems, fmt.Sprintf("the counter is set to %d", k))
+				}
+				return
+			}
+			if v == ssa.Value(phi) {
+				problems = append(problems, "on some way round the loop the counter is carried over unchanged: an octet that is not a backslash does not reset it")
+				return
+			}
+			if add, ok := v.(*ssa.BinOp); ok && add.Op == token.ADD && add.X == ssa.Value(phi) {
+				if k, isK := constIntOf(add.Y); isK && k == 1 {
+					// under the backslash test
+					under := false
+					for _, f := range factsAt(fn, add.Block()) {
+						if bin, ok := f.Atom.(*ssa.BinOp); ok {
+							if kk, isK := constIntOf(bin.Y); isK && kk == '\\' && ((bin.Op == token.EQL && f.Holds) || (bin.Op == token.NEQ && !f.Holds)) {
+								under = true
+							}
+						}
+					}
+					if !under {
+						problems = append(problems, fmt.Sprintf("%s: the counter is incremented for an octet not known to be a backslash", c.pos(add.Pos())))
+					}
+					incSeen = true
+					return
+				}
+			}
+			if p2, ok := v.(*ssa.Phi); ok {
+				for _, e := range p2.Edges {
+					visit(e, depth+1)
+				}
+				return
+			}
+			problems = append(problems, fmt.Sprintf("the counter takes the value %s", describeValue(v)))
+		}
+		for _, e := range carried {
+			visit(e, 0)
+		}
+		if incSeen {
+			found = true
+		} else {
+			problems = nil
+		}
+	})
+	problems = uniqStrings(problems)
+	return
+}
+
+// forwardParityOK: in the forward form, a label boundary is reported (the `false` return) only where the run
+// counter is known to be even.
+func forwardParityOK(fn *ssa.Function) bool {
+	okAll, n := true, 0
+	for _, b := range fn.Blocks {
+		ret, ok := b.Instrs[len(b.Instrs)-1].(*ssa.Return)
+		if !ok || len(ret.Results) != 2 {
+			continue
+		}
+		if kb, isB := constBool(ret.Results[1]); !isB || kb {
+			continue
+		}
+		n++
+		even := false
+		for _, f := range factsAt(fn, b) {
+			bin, ok := f.Atom.(*ssa.BinOp)
+			if !ok {
+				continue
+			}
+			par, ok := bin.X.(*ssa.BinOp)
+			if !ok || !(par.Op == token.REM || par.Op == token.AND) {
+				continue
+			}
+			if _, isPhi := par.X.(*ssa.Phi); !isPhi {
+				continue
+			}
+			k, isK := constIntOf(bin.Y)
+			if !isK {
+				continue
+			}
+			if (k == 0 && ((bin.Op == token.EQL && f.Holds) || (bin.Op == token.NEQ && !f.Holds))) || (k == 1 && ((bin.Op == token.EQL && !f.Holds) || (bin.Op == token.NEQ && f.Holds))) {
+				even = true
+			}
+		}
+		if !even {
+			okAll = false
+		}
+	}
+	return n > 0 && okAll
+}
